@@ -23,6 +23,22 @@ CHECKS["C11"] = dict(
     design_ref="DESIGN.md 6 C11",
     note="Part (1) 'inside kernels' and part (4) 'same bytes' of DESIGN 6 C11 are decided here for serial/fiat u64/u32 kernels; headroom along call paths of the group formulas (part 2) is decided by the layer-F bound propagation when listed in evidence; vector (AVX2/IFMA) kernels as listed. Trusted: LLVM IR semantics encoding, validated by shadow/concrete execution on every run.",
     technique="SMT / interval arithmetic over the overflow-checked LLVM IR (llsym)")
+TV_NOTE = "Trusted: kernel contracts are the ones established by C01 in the same tree (field ops are intercepted as exact ring operations); completeness/associativity of the twisted Edwards law, Fermat/Euler and the RFC procedures themselves are trusted mathematics (DESIGN 5.6 M1-M4). Polynomial identities are decided by exact normal-form computation over GF(p) on the result of symbolically executing the unoptimised LLVM IR; every outcome combination of the data-dependent predicates (ct_eq, is_negative, is_zero, was_square, input bits) is enumerated."
+CHECKS["C03"] = dict(
+    category="translation_validation",
+    text="Each Edwards formula (add/sub in all Niels variants, doubling, conversions, negation, identity, equality, select, compress, decompress) is executed from the O0 LLVM IR of the current tree with field operations as ring operations over symbolic inputs, and compared with the affine twisted-Edwards addition law / RFC 8032 encoding: the three addition-law identities are polynomial identities in (x1,y1,z1,x2,y2,z2) for points parametrised X=xz,Y=yz,Z=z,T=xyz, so they hold for every pair of points including torsion and exceptional points; decode/encode are compared path by path (all predicate outcomes).",
+    design_ref="DESIGN.md 6 C03", note=TV_NOTE,
+    technique="symbolic execution of rustc-emitted LLVM IR (llsym layer F) + exact polynomial normal forms over GF(p) + exhaustive path enumeration; counterexamples replayed natively")
+CHECKS["C06"] = dict(
+    category="translation_validation",
+    text="Ristretto Decode, Encode, Equals, the Elligator MAP and from_uniform_bytes are executed from the O0 IR and compared, on every path (canonicity, sign, squareness, zero tests enumerated), with the RFC 9496 section 4.3 procedures evaluated over the same abstract field values; constants enter as the numeric limbs of the tree and are compared against the RFC's constants computed from their definitions.",
+    design_ref="DESIGN.md 6 C06", note=TV_NOTE + " Round-trip / injectivity / prime order are properties of the RFC 9496 procedures (M3), not re-derived.",
+    technique="symbolic execution of LLVM IR (llsym layer F) vs RFC 9496 reference procedures, polynomial normal forms over GF(p), path enumeration")
+CHECKS["C07"] = dict(
+    category="translation_validation",
+    text="Montgomery ladder step vs RFC 7748 section 5 (exact polynomial equality of all four outputs), as_affine, Edwards->Montgomery map with the identity exception, Montgomery->Edwards with u=-1 rejection and Edwards decoding, Elligator2 map and equality modulo p, executed from the O0 IR over symbolic field values on every predicate path.",
+    design_ref="DESIGN.md 6 C07", note=TV_NOTE + " The ladder skeleton (bit order, conditional swaps), clamping and the x25519-dalek glue are covered by the layer-G / Kani harnesses when listed in evidence.",
+    technique="symbolic execution of LLVM IR (llsym layer F) vs RFC 7748 formulas, polynomial normal forms over GF(p), path enumeration")
 NOT_YET = {}
 for i in range(2, 18):
     NOT_YET["C%02d" % i] = "check under construction in this round (see DESIGN.md 6 for the planned solver-based check); not claimed until it runs green"
